@@ -23,6 +23,8 @@ pub mod num_bigint {
     pub broadcast axiom fn and_low_mask(a: int, k: nat) requires a >= 0 ensures #[trigger] int_and(a, pow2(k) as int - 1) == a % (pow2(k) as int);
     pub broadcast axiom fn or_disjoint(a: int, b: int, k: nat) requires a >= 0, a % (pow2(k) as int) == 0, 0 <= b < pow2(k) as int ensures #[trigger] int_or(a, b) == a + b, #[trigger] pow2(k) > 0;
 
+    pub broadcast axiom fn or_comm(a: int, b: int) ensures #[trigger] int_or(a, b) == int_or(b, a);
+
     pub open spec fn tdiv(a: int, b: int) -> int { if (a >= 0) == (b > 0) { (if a >= 0 { a } else { -a }) / (if b >= 0 { b } else { -b }) } else { -((if a >= 0 { a } else { -a }) / (if b >= 0 { b } else { -b })) } }
     pub open spec fn trem(a: int, b: int) -> int { a - b * tdiv(a, b) }
 
@@ -160,3 +162,9 @@ impl From<i32> for num_bigint::BigInt { #[verifier::external_body] fn from(v: i3
 // num_traits::zero::<BigInt>()
 #[verifier::external_body]
 pub fn zero() -> (r: num_bigint::BigInt) ensures num_bigint::bi(r) == 0 { unimplemented!() }
+impl vstd::std_specs::ops::DivAssignSpecImpl<num_bigint::BigInt> for num_bigint::BigInt {
+    open spec fn obeys_div_assign_spec() -> bool { true }
+    open spec fn div_assign_req(&self, rhs: num_bigint::BigInt) -> bool { num_bigint::bi(rhs) != 0 }
+    open spec fn div_assign_spec(&self, rhs: num_bigint::BigInt) -> &num_bigint::BigInt { &num_bigint::of_int(num_bigint::tdiv(num_bigint::bi(*self), num_bigint::bi(rhs))) }
+}
+impl core::ops::DivAssign<num_bigint::BigInt> for num_bigint::BigInt { #[verifier::external_body] fn div_assign(&mut self, rhs: num_bigint::BigInt) { unimplemented!() } }
